@@ -16,6 +16,7 @@
 //!   misc  : compat id mismatch, disagreeing patches (documented first-wins), out of range gid, unknown
 //!           table tags, missing URIs
 
+mod brotli;
 mod model;
 mod patches;
 
@@ -74,6 +75,8 @@ pub struct Decoder {
     pub calls: Cell<u32>,
     pub fault: Option<(u32, FaultKind)>,
     pub fault_hit: Cell<bool>,
+    /// delegate to the repository's `BuiltInBrotliDecoder` (real brotli streams) instead of passing through
+    pub real: bool,
 }
 
 impl Decoder {
@@ -82,6 +85,13 @@ impl Decoder {
             calls: Cell::new(0),
             fault,
             fault_hit: Cell::new(false),
+            real: false,
+        }
+    }
+    pub fn real(fault: Option<(u32, FaultKind)>) -> Self {
+        Decoder {
+            real: true,
+            ..Decoder::new(fault)
         }
     }
 }
@@ -96,11 +106,18 @@ impl SharedBrotliDecoder for Decoder {
         let n = self.calls.get() + 1;
         self.calls.set(n);
         let mut out = vec![];
-        if let Some(d) = shared_dictionary {
-            out.extend_from_slice(d);
-            out.push(0xDD);
+        if self.real {
+            let is_error_fault = matches!(self.fault, Some((k, kind)) if k == n && kind != FaultKind::Oversize);
+            if !is_error_fault {
+                out = shared_brotli_patch_decoder::BuiltInBrotliDecoder.decode(encoded, shared_dictionary, max_uncompressed_length)?;
+            }
+        } else {
+            if let Some(d) = shared_dictionary {
+                out.extend_from_slice(d);
+                out.push(0xDD);
+            }
+            out.extend_from_slice(encoded);
         }
-        out.extend_from_slice(encoded);
         if let Some((k, kind)) = self.fault {
             if k == n {
                 self.fault_hit.set(true);
@@ -400,9 +417,22 @@ impl GkPatch {
     }
 }
 
+/// bytes of patch i of a scenario: pass-through body, or (real_brotli) the body inside a stored brotli stream
+pub fn patch_bytes(sc: &Scenario, i: usize) -> Vec<u8> {
+    let p = &sc.patches[i];
+    if !sc.real_brotli {
+        return p.bytes();
+    }
+    let body = glyph_keyed_body(p.wide, &p.gids, &p.tables, &p.data);
+    let (wb, chunk) = [(16u32, 1usize << 16), (22, 1 << 24), (24, 7)][i % 3];
+    let stream = brotli::stored(&body, wb, chunk);
+    glyph_keyed_wrap(p.compat, p.wide, &stream, body.len() as u32)
+}
+
 #[derive(Debug, Clone, PartialEq)]
 pub enum RefErr {
     OffsetOverflow,
+    UnsortedTables,
     GidBeyondFont,
     MissingTable,
     Incompatible,
@@ -469,6 +499,9 @@ pub fn ref_apply_gk(f: &mut RefFont, patches: &[&GkPatch], bits: &[(TagB, usize)
         if compat.get(t) != Some(&p.compat) {
             return Err(RefErr::Incompatible);
         }
+    }
+    if patches.iter().any(|p| p.tables.windows(2).any(|w| w[0] >= w[1])) {
+        return Err(RefErr::UnsortedTables);
     }
     let mut g = f.clone();
     let mut tags: Vec<TagB> = patches.iter().flat_map(|p| p.tables.iter().copied()).collect();
@@ -752,6 +785,9 @@ pub struct Scenario {
     pub patches: Vec<GkPatch>,
     /// patch formats per entry: 3 = glyph keyed (the only one used in gk scenarios)
     pub note: String,
+    /// patch bodies are wrapped into hand-made brotli streams and decoded by `BuiltInBrotliDecoder`
+    #[serde(default)]
+    pub real_brotli: bool,
 }
 
 pub struct Built {
@@ -1040,7 +1076,7 @@ pub fn execute(
     if sc.mapping == Mapping::Split {
         compat.insert(IFTX, COMPAT_IFTX);
     }
-    let decoder = Decoder::new(fault);
+    let decoder = if sc.real_brotli { Decoder::real(fault) } else { Decoder::new(fault) };
     let mut font = built.font.clone();
     let mut reference = built.reference.clone();
     let mut map: HashMap<String, UriStatus> = HashMap::new();
@@ -1097,7 +1133,7 @@ pub fn execute(
         }
         // the client fetches what it does not have yet
         for i in block {
-            map.insert(built.uris[*i].clone(), UriStatus::Pending(sc.patches[*i].bytes()));
+            map.insert(built.uris[*i].clone(), UriStatus::Pending(patch_bytes(sc, *i)));
         }
         let before = snapshot(&map);
         let calls_before = decoder.calls.get();
@@ -1477,10 +1513,33 @@ fn body(run: &Run, replay: Option<&Value>) {
         replay_case(&ctx, case);
         return;
     }
+    match brotli::gate() {
+        brotli::Gate::Ok(n) => run.count("brotli_streams_decoded_by_the_real_decoder_in_the_gate", n),
+        brotli::Gate::FixtureFails(e) => run.violation(
+            "BuiltInBrotliDecoder does not decode the repository's own brotli fixtures (with / without shared dictionary)",
+            &e,
+            json!({"kind":"brotli-fixture"}),
+        ),
+        brotli::Gate::HandMadeFails(e) => {
+            run.machinery_error(&format!("gate: hand-made brotli streams are not what the real decoder expects: {e}"));
+            return;
+        }
+    }
+    if std::env::var("C18_GATE_ONLY").is_ok() {
+        return;
+    }
     space_gk(&ctx);
     space_wide(&ctx);
     space_misc(&ctx);
     space_tk(&ctx);
+    space_tk_extra(&ctx);
+    space_tk_chain(&ctx);
+    space_real(&ctx);
+    space_corrupt(&ctx);
+    space_unsorted(&ctx);
+    if run.tier == Tier::Thorough {
+        space_four(&ctx);
+    }
     let l = std::mem::take(&mut *ctx.sink.lock().unwrap());
     run.evals(l.evals);
     run.trans(l.applies);
@@ -1521,6 +1580,8 @@ fn replay_case(ctx: &Ctx, case: &Value) {
         "misc" => {
             space_misc(ctx);
         }
+        "tk-chain" => space_tk_chain(ctx),
+        "corrupt" => space_corrupt(ctx),
         _ => println!("unknown replay kind {kind}"),
     }
 }
@@ -1554,7 +1615,7 @@ fn space_gk(ctx: &Ctx) {
                                 base: spec.clone(),
                                 mapping,
                                 patches: vec![gk_patch(world, s, tables, wide, COMPAT_IFT)],
-                                note: "single".into(),
+                                note: "single".into(), real_brotli: false
                             });
                         }
                     }
@@ -1575,7 +1636,7 @@ fn space_gk(ctx: &Ctx) {
                                     gk_patch(world, a, tables, false, compat_of(mapping, 0)),
                                     gk_patch(world, b, tables, true, compat_of(mapping, 1)),
                                 ],
-                                note: "pair".into(),
+                                note: "pair".into(), real_brotli: false
                             });
                         }
                     }
@@ -1596,7 +1657,7 @@ fn space_gk(ctx: &Ctx) {
                                         gk_patch(world, &tri_sets[j], &t2, false, compat_of(mapping, 1)),
                                         gk_patch(world, &tri_sets[k], tables, true, compat_of(mapping, 2)),
                                     ],
-                                    note: "triple".into(),
+                                    note: "triple".into(), real_brotli: false
                                 });
                             }
                         }
@@ -1648,7 +1709,7 @@ fn space_wide(ctx: &Ctx) {
                                 base: spec.clone(),
                                 mapping: Mapping::F2,
                                 patches: vec![gk_patch(world, &gids, tables, false, COMPAT_IFT)],
-                                note: "wide-single".into(),
+                                note: "wide-single".into(), real_brotli: false
                             });
                         }
                     }
@@ -1660,7 +1721,7 @@ fn space_wide(ctx: &Ctx) {
                             gk_patch(3, &[1, 2], tables, false, COMPAT_IFT),
                             gk_patch(3, &[2, 4], tables, false, COMPAT_IFT),
                         ],
-                        note: "wide-pair".into(),
+                        note: "wide-pair".into(), real_brotli: false
                     });
                 }
             }
@@ -1682,7 +1743,7 @@ fn space_wide(ctx: &Ctx) {
                             base: spec.clone(),
                             mapping: Mapping::F2,
                             patches: vec![gk_patch(world, &gids, &[tag], false, COMPAT_IFT)],
-                            note: "wide-cff".into(),
+                            note: "wide-cff".into(), real_brotli: false
                         });
                     }
                 }
@@ -1714,7 +1775,7 @@ fn space_misc(ctx: &Ctx) {
                     gk_patch(0, &[1, 4], tables, false, compat_of(mapping, 1)),
                 ];
                 ps[bad].compat = [7, 7, 7, 7];
-                let sc = Scenario { base: spec.clone(), mapping, patches: ps, note: "compat".into() };
+                let sc = Scenario { base: spec.clone(), mapping, patches: ps, note: "compat".into(), real_brotli: false };
                 explore_scenario(ctx, &sc, &mut l);
                 check_no_decode_on_incompatible(ctx, &sc, &mut l);
                 n += 1;
@@ -1726,7 +1787,7 @@ fn space_misc(ctx: &Ctx) {
                 gk_patch(5, &[1, 2, 3], tables, false, compat_of(mapping, 2)),
             ];
             ps.truncate(if mapping == Mapping::F2 { 3 } else { 2 });
-            let sc = Scenario { base: spec.clone(), mapping, patches: ps, note: "disagree".into() };
+            let sc = Scenario { base: spec.clone(), mapping, patches: ps, note: "disagree".into(), real_brotli: false };
             explore_scenario(ctx, &sc, &mut l);
             check_missing_patch_data(ctx, &sc, &mut l);
             n += 1;
@@ -1738,7 +1799,7 @@ fn space_misc(ctx: &Ctx) {
                     gk_patch(0, &[0], tables, false, compat_of(mapping, 0)),
                     gk_patch(0, &[2, 6], tables, true, compat_of(mapping, 1)),
                 ],
-                note: "gid-beyond".into(),
+                note: "gid-beyond".into(), real_brotli: false
             };
             explore_scenario(ctx, &sc, &mut l);
             n += 1;
@@ -1751,7 +1812,7 @@ fn space_misc(ctx: &Ctx) {
                     gk_patch(0, &[0], tables, false, compat_of(mapping, 0)),
                     gk_patch(0, &[1], &[other], false, compat_of(mapping, 1)),
                 ],
-                note: "missing-table".into(),
+                note: "missing-table".into(), real_brotli: false
             };
             explore_scenario(ctx, &sc, &mut l);
             let sc = Scenario {
@@ -1761,7 +1822,7 @@ fn space_misc(ctx: &Ctx) {
                     gk_patch(0, &[0, 1], &[ZZZZ], false, compat_of(mapping, 0)),
                     gk_patch(0, &[], tables, false, compat_of(mapping, 1)),
                 ],
-                note: "unknown-table-and-empty".into(),
+                note: "unknown-table-and-empty".into(), real_brotli: false
             };
             explore_scenario(ctx, &sc, &mut l);
             n += 2;
@@ -1783,7 +1844,7 @@ fn check_missing_patch_data(ctx: &Ctx, sc: &Scenario, l: &mut Local) {
         let mut map: HashMap<String, UriStatus> = HashMap::new();
         for i in 0..n {
             if i != absent {
-                map.insert(built.uris[i].clone(), UriStatus::Pending(sc.patches[i].bytes()));
+                map.insert(built.uris[i].clone(), UriStatus::Pending(patch_bytes(sc, i)));
             }
         }
         let before = snapshot(&map);
@@ -1830,7 +1891,7 @@ fn check_no_decode_on_incompatible(ctx: &Ctx, sc: &Scenario, l: &mut Local) {
     let decoder = Decoder::new(None);
     let mut map: HashMap<String, UriStatus> = HashMap::new();
     for i in 0..n {
-        map.insert(built.uris[i].clone(), UriStatus::Pending(sc.patches[i].bytes()));
+        map.insert(built.uris[i].clone(), UriStatus::Pending(patch_bytes(sc, i)));
     }
     let before = snapshot(&map);
     let r = guard(|| {
@@ -1894,6 +1955,12 @@ pub struct TkCase {
     pub fault: Option<(u32, FaultKind)>,
     /// mapping table tag the entry lives in
     pub in_iftx: bool,
+    /// real brotli streams (stored blocks; diffs copy the tail of the base table out of the shared dictionary)
+    #[serde(default)]
+    pub real: bool,
+    /// real only: max_uncompressed_length = exact output length + max_delta
+    #[serde(default)]
+    pub max_delta: i32,
 }
 
 fn tk_base(in_iftx: bool, format: u8) -> (Vec<u8>, BTreeMap<TagB, Vec<u8>>, String) {
@@ -1929,42 +1996,71 @@ fn run_tk(ctx: &Ctx, tc: &TkCase, l: &mut Local) {
     let compat = if tc.in_iftx { COMPAT_IFTX } else { COMPAT_IFT };
     let patch_compat = if tc.compat_equal { compat } else { [4, 3, 2, 1] };
     let mut ops = vec![];
+    let mut lens: Vec<u32> = vec![];
     let mut want = base_tables.clone();
     let mut want_err = !tc.compat_equal;
-    let mut n_dec = 0u32;
+    let mut seen: Vec<TagB> = vec![];
+    let mut stopped = false; // the reference stops at the first failing op
     for (i, (tag, op)) in tc.ops.iter().enumerate() {
         let payload: Vec<u8> = format!("new-{}-{}", tag_str(tag), i).into_bytes();
+        // a tag listed again is ignored (first entry wins); it is still encoded into the patch
+        let dup = seen.contains(tag);
+        seen.push(*tag);
+        let live = !dup && !stopped;
         match op {
             0 => {
-                ops.push((*tag, TableOp::Replace(payload.clone())));
-                want.insert(*tag, payload);
-                n_dec += 1;
+                let stream = if tc.real { brotli::stored(&payload, 16, 1 << 16) } else { payload.clone() };
+                lens.push((payload.len() as i64 + if tc.real { tc.max_delta as i64 } else { 64 }).max(0) as u32);
+                ops.push((*tag, TableOp::Replace(stream)));
+                if live {
+                    if tc.real && tc.max_delta < 0 {
+                        want_err = true;
+                        stopped = true;
+                    } else {
+                        want.insert(*tag, payload);
+                    }
+                }
             }
             1 => {
-                ops.push((*tag, TableOp::Diff(payload.clone())));
-                n_dec += 1;
-                match base_tables.get(tag) {
-                    Some(b) => {
-                        let mut v = b.clone();
-                        v.push(0xDD);
-                        v.extend_from_slice(&payload);
-                        want.insert(*tag, v);
+                let base = base_tables.get(tag);
+                let (stream, out): (Vec<u8>, Vec<u8>) = if tc.real {
+                    match base {
+                        Some(b) if b.len() >= 2 => {
+                            // copy the last c bytes of the base table out of the shared dictionary, then the payload
+                            let c = b.len().min(7);
+                            let mut out = b[b.len() - c..].to_vec();
+                            out.extend_from_slice(&payload);
+                            (brotli::dict_copy_then_stored(c, c as u32, &payload, 16), out)
+                        }
+                        _ => (brotli::stored(&payload, 16, 1 << 16), payload.clone()),
                     }
-                    None => {
+                } else {
+                    let mut out = base.cloned().unwrap_or_default();
+                    out.push(0xDD);
+                    out.extend_from_slice(&payload);
+                    (payload.clone(), out)
+                };
+                lens.push((out.len() as i64 + if tc.real { tc.max_delta as i64 } else { 64 }).max(0) as u32);
+                ops.push((*tag, TableOp::Diff(stream)));
+                if live {
+                    if base.is_none() || (tc.real && tc.max_delta < 0) {
                         want_err = true;
-                        n_dec -= 1;
+                        stopped = true;
+                    } else {
+                        want.insert(*tag, out);
                     }
                 }
             }
             _ => {
+                lens.push(0);
                 ops.push((*tag, TableOp::Drop));
-                want.remove(tag);
+                if live {
+                    want.remove(tag);
+                }
             }
         }
     }
-    let _ = n_dec;
-    // max_uncompressed_length: room for the dictionary rule of the harness decoder
-    let patch = table_keyed_patch(patch_compat, &ops, 64);
+    let patch = table_keyed_patch_lens(patch_compat, &ops, &lens);
     let case = json!({"kind":"tk","tk": tc});
     let sig = format!(
         "format={} in_iftx={} ops={}",
@@ -1972,7 +2068,7 @@ fn run_tk(ctx: &Ctx, tc: &TkCase, l: &mut Local) {
         tc.in_iftx,
         tc.ops.iter().map(|(t, o)| format!("{}:{}", tag_str(t).trim(), ["replace", "diff", "drop"][*o as usize])).collect::<Vec<_>>().join(",")
     );
-    let decoder = Decoder::new(tc.fault);
+    let decoder = if tc.real { Decoder::real(tc.fault) } else { Decoder::new(tc.fault) };
     let mut map: HashMap<String, UriStatus> = HashMap::new();
     map.insert(uri.clone(), UriStatus::Pending(patch));
     map.insert("unrelated".into(), UriStatus::Pending(vec![9]));
@@ -1990,6 +2086,7 @@ fn run_tk(ctx: &Ctx, tc: &TkCase, l: &mut Local) {
     let mut h = Fnv::new();
     h.str("tk");
     h.str(&sig);
+    h.u64(tc.real as u64 * 8 + (tc.max_delta + 2) as u64);
     h.u64(tc.compat_equal as u64);
     h.u64(tc.fault.map(|(k, f)| k as u64 * 16 + f as u64).unwrap_or(0));
     let (uris, res) = match r {
@@ -2130,14 +2227,14 @@ fn space_tk(ctx: &Ctx) {
                 if in_iftx && format == 1 && ops.len() == 3 && run.tier == Tier::Quick {
                     continue;
                 }
-                cases.push(TkCase { ops: ops.clone(), format, compat_equal: true, fault: None, in_iftx });
-                cases.push(TkCase { ops: ops.clone(), format, compat_equal: false, fault: None, in_iftx });
+                cases.push(TkCase { ops: ops.clone(), format, compat_equal: true, fault: None, in_iftx, real: false, max_delta: 0 });
+                cases.push(TkCase { ops: ops.clone(), format, compat_equal: false, fault: None, in_iftx, real: false, max_delta: 0 });
                 if in_iftx || format == 2 {
                     continue;
                 }
                 for k in 1..=n_dec + 1 {
                     for f in FAULT_KINDS {
-                        cases.push(TkCase { ops: ops.clone(), format, compat_equal: true, fault: Some((k, f)), in_iftx });
+                        cases.push(TkCase { ops: ops.clone(), format, compat_equal: true, fault: Some((k, f)), in_iftx, real: false, max_delta: 0 });
                     }
                 }
             }
@@ -2152,6 +2249,492 @@ fn space_tk(ctx: &Ctx) {
         for i in c * chunk..((c + 1) * chunk).min(cases.len()) {
             run_tk(ctx, &cases[i], &mut l);
         }
+        ctx.merge(l);
+    });
+}
+
+// ---------------------------------------------------------------------------
+// round 2 spaces
+// ---------------------------------------------------------------------------
+
+/// table keyed: duplicate tags, IFTX as a patched tag, real brotli streams
+fn space_tk_extra(ctx: &Ctx) {
+    let run = ctx.run;
+    let mut cases: Vec<TkCase> = vec![];
+    let tags6: [TagB; 6] = [*b"tab1", *b"tab2", *b"tab3", *b"tab9", *b"IFT ", *b"IFTX"];
+    // (a) a tag listed twice (every op pair), alone and with a third op before / between / after
+    for t in [*b"tab1", *b"tab9", *b"IFT "] {
+        for o1 in 0..3u8 {
+            for o2 in 0..3u8 {
+                let pair = vec![(t, o1), (t, o2)];
+                let mut lists = vec![pair.clone()];
+                for o3 in 0..3u8 {
+                    lists.push(vec![(*b"tab2", o3), (t, o1), (t, o2)]);
+                    lists.push(vec![(t, o1), (*b"tab2", o3), (t, o2)]);
+                    lists.push(vec![(t, o1), (t, o2), (*b"tab2", o3)]);
+                }
+                lists.push(vec![(t, o1), (t, o2), (t, o1)]);
+                for ops in lists {
+                    let n_dec = ops.iter().filter(|(_, o)| *o != 2).count() as u32;
+                    cases.push(TkCase { ops: ops.clone(), format: 2, compat_equal: true, fault: None, in_iftx: false, real: false, max_delta: 0 });
+                    cases.push(TkCase { ops: ops.clone(), format: 1, compat_equal: true, fault: None, in_iftx: true, real: false, max_delta: 0 });
+                    for k in 1..=n_dec {
+                        cases.push(TkCase { ops: ops.clone(), format: 2, compat_equal: true, fault: Some((k, FaultKind::InvalidStream)), in_iftx: false, real: false, max_delta: 0 });
+                    }
+                }
+            }
+        }
+    }
+    // (b) IFTX among the patched tags (the mapping table replacing itself / the other mapping table)
+    for a in tags6 {
+        for oa in 0..3u8 {
+            for in_iftx in [false, true] {
+                cases.push(TkCase { ops: vec![(*b"IFTX", oa)], format: 2, compat_equal: true, fault: None, in_iftx, real: false, max_delta: 0 });
+                if a != *b"IFTX" {
+                    for ob in 0..3u8 {
+                        cases.push(TkCase { ops: vec![(a, oa), (*b"IFTX", ob)], format: 1, compat_equal: true, fault: None, in_iftx, real: false, max_delta: 0 });
+                        cases.push(TkCase { ops: vec![(*b"IFTX", ob), (a, oa)], format: 2, compat_equal: true, fault: None, in_iftx, real: false, max_delta: 0 });
+                    }
+                }
+            }
+        }
+    }
+    let n_passthrough = cases.len();
+    // (c) real brotli streams through BuiltInBrotliDecoder: all lists of <= 2 ops over 5 tags
+    let mut lists: Vec<Vec<(TagB, u8)>> = vec![];
+    for a in TK_TAGS {
+        for oa in 0..3u8 {
+            lists.push(vec![(a, oa)]);
+            for b in TK_TAGS {
+                for ob in 0..3u8 {
+                    lists.push(vec![(a, oa), (b, ob)]); // b == a: duplicates through the real decoder too
+                }
+            }
+        }
+    }
+    for ops in &lists {
+        let n_dec = ops.iter().filter(|(_, o)| *o != 2).count() as u32;
+        for in_iftx in [false, true] {
+            for max_delta in [0i32, 1, -1] {
+                cases.push(TkCase { ops: ops.clone(), format: 2, compat_equal: true, fault: None, in_iftx, real: true, max_delta });
+            }
+            cases.push(TkCase { ops: ops.clone(), format: 1, compat_equal: false, fault: None, in_iftx, real: true, max_delta: 0 });
+        }
+        for k in 1..=n_dec {
+            for f in [FaultKind::InvalidStream, FaultKind::Oversize] {
+                cases.push(TkCase { ops: ops.clone(), format: 2, compat_equal: true, fault: Some((k, f)), in_iftx: false, real: true, max_delta: 0 });
+            }
+        }
+    }
+    run.count("tk_cases_duplicates_and_iftx", n_passthrough as u64);
+    run.count("tk_cases_real_brotli", (cases.len() - n_passthrough) as u64);
+    run.sample(json!({"space":"tk-real","case": cases[n_passthrough + 77]}));
+    let cases = &cases;
+    let chunk = 64;
+    par_for(cases.len().div_ceil(chunk), |c| {
+        let mut l = Local::default();
+        for i in c * chunk..((c + 1) * chunk).min(cases.len()) {
+            run_tk(ctx, &cases[i], &mut l);
+        }
+        ctx.merge(l);
+    });
+}
+
+/// A table keyed patch replaces the mapping table it came from by a valid table of another size
+/// (more / fewer entries, other compat id); the next selection must work on the new table.
+fn space_tk_chain(ctx: &Ctx) {
+    use incremental_font_transfer::patchmap::SubsetDefinition;
+    let mut l = Local::default();
+    let mut n = 0u64;
+    for in_iftx in [false, true] {
+        for format in [1u8, 2] {
+            for n_new in [0usize, 1, 2, 3] {
+                for real in [false, true] {
+                    let (font, _tables, uri) = tk_base(in_iftx, format);
+                    let compat = if in_iftx { COMPAT_IFTX } else { COMPAT_IFT };
+                    let mut new_t = T2 {
+                        compat: [8, 8, 8, n_new as u32],
+                        default_format: 3,
+                        template: b"next/{id}".to_vec(),
+                        entries: vec![],
+                        string_data: None,
+                        cff_off: None,
+                        cff2_off: None,
+                    };
+                    for k in 0..n_new {
+                        let mut e = E2::plain();
+                        e.cps = Cps::Set { bias_kind: 0, bias: 0, members: vec![0x41 + (k as u32 % 2)] };
+                        new_t.entries.push(e);
+                    }
+                    let new_bytes = encode_t2(&new_t).bytes;
+                    let own = if in_iftx { IFTX } else { IFT };
+                    let stream = if real { brotli::stored(&new_bytes, 18, 11) } else { new_bytes.clone() };
+                    let patch = table_keyed_patch_lens(compat, &[(own, TableOp::Replace(stream))], &[new_bytes.len() as u32]);
+                    let decoder = if real { Decoder::real(None) } else { Decoder::new(None) };
+                    let mut map: HashMap<String, UriStatus> = HashMap::new();
+                    map.insert(uri.clone(), UriStatus::Pending(patch));
+                    let sd = SubsetDefinition::codepoints([0x41u32, 0x42].into_iter().collect());
+                    let case = json!({"kind":"tk-chain","in_iftx": in_iftx, "format": format, "n_new": n_new, "real": real});
+                    l.evals += 1;
+                    l.applies += 1;
+                    n += 1;
+                    let r = guard(|| {
+                        let fr = FontRef::new(&font).unwrap();
+                        let g = PatchGroup::select_next_patches(fr, &sd).map_err(|e| format!("select 1: {e}"))?;
+                        let f2 = g.apply_next_patches_with_decoder(&mut map, &decoder).map_err(|e| format!("apply: {e:?}"))?;
+                        let fr2 = FontRef::new(&f2).map_err(|e| format!("font 2: {e}"))?;
+                        let got_table = fr2.table_data(Tag::new(&own)).map(|d| d.as_bytes().to_vec());
+                        let g2 = PatchGroup::select_next_patches(fr2, &sd).map_err(|e| format!("select 2: {e}"))?;
+                        let uris: Vec<String> = g2.uris().map(|s| s.to_string()).collect();
+                        Ok::<_, String>((got_table, uris))
+                    });
+                    let want_uris: Vec<String> = (0..n_new).map(|k| expand_uri(&new_t.template, &Id::Num(k as u32 + 1))).collect();
+                    match r {
+                        Err(p) => ctx.run.violation(&format!("table keyed chain panics: {} at {}", p.kind(), p.site()), &p.message, case),
+                        Ok(Err(e)) => ctx.run.violation("table keyed patch replacing its own mapping table by a differently sized one fails", &e, case),
+                        Ok(Ok((t, uris))) => {
+                            if t.as_deref() != Some(&new_bytes[..]) {
+                                ctx.run.violation("table keyed result: patched table is not the decoded replacement/diff", "mapping table after self replacement", case.clone());
+                            }
+                            if uris != want_uris {
+                                ctx.run.violation(
+                                    "selection after a mapping table replaced itself does not follow the new table",
+                                    &format!("got {uris:?} want {want_uris:?}"),
+                                    case,
+                                );
+                            }
+                            let dg = digest_of(&("tk-chain", in_iftx, format, n_new, real));
+                            l.all.insert(dg);
+                            l.nontrivial.insert(dg);
+                        }
+                    }
+                }
+            }
+        }
+    }
+    ctx.run.count("tk_chain_cases", n);
+    ctx.merge(l);
+}
+
+/// glyph keyed scenarios through the real decoder (bodies in stored brotli streams)
+fn space_real(ctx: &Ctx) {
+    let run = ctx.run;
+    let thorough = run.tier == Tier::Thorough;
+    let sets = gid_sets();
+    let tri_sets: Vec<Vec<u32>> = vec![vec![0], vec![2], vec![5], vec![0, 1], vec![1, 2], vec![2, 5], vec![0, 5], vec![0, 1, 2], vec![1, 3, 5], vec![3, 4, 5]];
+    let mut scenarios = vec![];
+    for spec in base_specs() {
+        let tables = &tables_for(spec.kind)[0];
+        for world in if thorough { vec![0usize, 1, 3] } else { vec![0] } {
+            for s in &sets {
+                scenarios.push(Scenario {
+                    base: spec.clone(),
+                    mapping: Mapping::F2,
+                    patches: vec![gk_patch(world, s, tables, s.len() % 2 == 0, COMPAT_IFT)],
+                    note: "real-single".into(),
+                    real_brotli: true,
+                });
+            }
+            for mapping in [Mapping::F2, Mapping::Split] {
+                for (i, a) in tri_sets.iter().enumerate() {
+                    for b in &tri_sets[i..] {
+                        scenarios.push(Scenario {
+                            base: spec.clone(),
+                            mapping,
+                            patches: vec![
+                                gk_patch(world, a, tables, false, compat_of(mapping, 0)),
+                                gk_patch(world, b, tables, true, compat_of(mapping, 1)),
+                            ],
+                            note: "real-pair".into(),
+                            real_brotli: true,
+                        });
+                    }
+                }
+            }
+            if thorough {
+                for i in 0..tri_sets.len() {
+                    for j in i + 1..tri_sets.len() {
+                        for k in j + 1..tri_sets.len() {
+                            scenarios.push(Scenario {
+                                base: spec.clone(),
+                                mapping: Mapping::F2,
+                                patches: vec![
+                                    gk_patch(world, &tri_sets[i], tables, false, COMPAT_IFT),
+                                    gk_patch(world, &tri_sets[j], tables, false, COMPAT_IFT),
+                                    gk_patch(world, &tri_sets[k], tables, true, COMPAT_IFT),
+                                ],
+                                note: "real-triple".into(),
+                                real_brotli: true,
+                            });
+                        }
+                    }
+                }
+            }
+        }
+    }
+    // across the widening limit as well (130 KB bodies are not involved: only the base is big)
+    for kind in [BaseKind::GvarShort, BaseKind::GlyfShort] {
+        for big in [LIMIT_SHORT - 22, LIMIT_SHORT - 18, LIMIT_SHORT - 14] {
+            let spec = BaseSpec { kind, lens: vec![4, 2, 0, 6, 2, big], off_size: 0, gvar_tuples_last: false };
+            let tables = &tables_for(kind)[0];
+            for gids in [vec![0u32], vec![1, 2], vec![5]] {
+                scenarios.push(Scenario {
+                    base: spec.clone(),
+                    mapping: Mapping::F2,
+                    patches: vec![gk_patch(3, &gids, tables, false, COMPAT_IFT)],
+                    note: "real-wide".into(),
+                    real_brotli: true,
+                });
+            }
+        }
+    }
+    run.count("real_brotli_gk_scenarios", scenarios.len() as u64);
+    run.sample(json!({"space":"real","scenario": scenarios[50]}));
+    let scenarios = &scenarios;
+    par_for(scenarios.len(), |i| {
+        let mut l = Local::default();
+        explore_scenario(ctx, &scenarios[i], &mut l);
+        ctx.merge(l);
+    });
+}
+
+/// Fault enumeration on the real decoder: one glyph keyed patch per base kind and one table keyed
+/// patch, truncated at every length and with every byte xor-ed by 0x01 / 0x80 / 0xFF (the two high
+/// bytes of max_uncompressed_length fields are left alone: the real decoder allocates that much).
+/// Truncation must give Err; any Err leaves the bookkeeping untouched; an accepted corruption flips
+/// exactly the applied URI; nothing panics.
+fn space_corrupt(ctx: &Ctx) {
+    use incremental_font_transfer::patchmap::SubsetDefinition;
+    struct Target {
+        font: Vec<u8>,
+        uri: String,
+        patch: Vec<u8>,
+        skip: Vec<usize>,
+        sd: SubsetDefinition,
+        what: String,
+    }
+    let mut targets = vec![];
+    for spec in base_specs() {
+        let tables = &tables_for(spec.kind)[0];
+        let sc = Scenario {
+            base: spec.clone(),
+            mapping: Mapping::F2,
+            patches: vec![gk_patch(0, &[1, 3], tables, false, COMPAT_IFT)],
+            note: "corrupt".into(),
+            real_brotli: true,
+        };
+        let built = build_scenario(&sc, &[1]);
+        targets.push(Target {
+            font: built.font.clone(),
+            uri: built.uris[0].clone(),
+            patch: patch_bytes(&sc, 0),
+            skip: vec![25, 26],
+            sd: SubsetDefinition::codepoints(built.cps.iter().copied().collect()),
+            what: format!("glyph keyed {:?}", spec.kind),
+        });
+    }
+    {
+        let (font, base_tables, uri) = tk_base(false, 2);
+        let p1 = b"replacement".to_vec();
+        let p2 = b"+diff".to_vec();
+        let b = &base_tables[b"tab2"];
+        let ops = vec![
+            (*b"tab1", TableOp::Replace(brotli::stored(&p1, 16, 1 << 16))),
+            (*b"tab2", TableOp::Diff(brotli::dict_copy_then_stored(7, 7, &p2, 16))),
+            (*b"tab3", TableOp::Drop),
+        ];
+        let lens = [p1.len() as u32, (b.len().min(7) + p2.len()) as u32, 0];
+        let patch = table_keyed_patch_lens(COMPAT_IFT, &ops, &lens);
+        // positions of the two high bytes of every max_uncompressed_length
+        let header = 4 + 4 + 16 + 2 + 4 * (ops.len() + 1);
+        let mut skip = vec![];
+        let mut at = header;
+        for (_, op) in &ops {
+            skip.extend([at + 5, at + 6]);
+            at += 9 + match op {
+                TableOp::Replace(s) | TableOp::Diff(s) => s.len(),
+                TableOp::Drop => 0,
+            };
+        }
+        targets.push(Target {
+            font,
+            uri,
+            patch,
+            skip,
+            sd: SubsetDefinition::codepoints([0x41u32].into_iter().collect()),
+            what: "table keyed".into(),
+        });
+    }
+    let counts = Mutex::new((0u64, 0u64, 0u64)); // truncations, corruptions rejected, corruptions accepted
+    let targets = &targets;
+    par_for(targets.len(), |ti| {
+        let t = &targets[ti];
+        let mut l = Local::default();
+        let mut variants: Vec<(String, Vec<u8>, bool)> = vec![("intact".into(), t.patch.clone(), false)];
+        for p in 0..t.patch.len() {
+            variants.push((format!("truncated to {p}"), t.patch[..p].to_vec(), true));
+        }
+        for p in 0..t.patch.len() {
+            if t.skip.contains(&p) {
+                continue;
+            }
+            for x in [0x01u8, 0x80, 0xFF] {
+                let mut v = t.patch.clone();
+                v[p] ^= x;
+                variants.push((format!("byte {p} xor {x:#04x}"), v, false));
+            }
+        }
+        let (mut n_trunc, mut n_rej, mut n_acc) = (0u64, 0u64, 0u64);
+        for (name, bytes, must_fail) in variants {
+            let decoder = Decoder::real(None);
+            let mut map: HashMap<String, UriStatus> = HashMap::new();
+            map.insert(t.uri.clone(), UriStatus::Pending(bytes.clone()));
+            map.insert("unrelated".into(), UriStatus::Pending(vec![1]));
+            let before = snapshot(&map);
+            let r = guard(|| {
+                let fr = FontRef::new(&t.font).unwrap();
+                let g = PatchGroup::select_next_patches(fr, &t.sd).unwrap();
+                g.apply_next_patches_with_decoder(&mut map, &decoder)
+            });
+            l.evals += 1;
+            l.applies += 1;
+            let after = snapshot(&map);
+            let case = json!({"kind":"corrupt","target": t.what, "variant": name, "patch": hex(&bytes)});
+            match r {
+                Err(p) => ctx.run.violation(
+                    &format!("apply with the real decoder panics on a damaged patch: {} at {}", p.kind(), p.site()),
+                    &format!("{}: {name}: {}", t.what, p.message),
+                    case,
+                ),
+                Ok(Err(e)) => {
+                    if after != before {
+                        ctx.run.violation(
+                            &format!("UriStatus map modified although the call failed ({}): real decoder, damaged patch", err_class(&e)),
+                            &format!("{}: {name}", t.what),
+                            case.clone(),
+                        );
+                    }
+                    if name == "intact" {
+                        ctx.run.violation("intact patch with a real brotli stream is rejected", &format!("{}: {e:?}", t.what), case);
+                    }
+                    if must_fail {
+                        n_trunc += 1;
+                    } else {
+                        n_rej += 1;
+                    }
+                    l.all.insert(digest_of(&("corrupt-err", ti, err_class(&e))));
+                }
+                Ok(Ok(_)) => {
+                    if must_fail {
+                        ctx.run.violation(
+                            &format!("truncated patch is applied (real decoder): {}", t.what.split(' ').next().unwrap_or("")),
+                            &format!("{}: {name}", t.what),
+                            case.clone(),
+                        );
+                    }
+                    let mut exp = before.clone();
+                    for (k, v) in exp.iter_mut() {
+                        if *k == t.uri {
+                            *v = None;
+                        }
+                    }
+                    if exp != after {
+                        ctx.run.violation("UriStatus map after success is not 'exactly the applied URIs flipped': real decoder, damaged patch", &name, case);
+                    }
+                    n_acc += 1;
+                    let dg = digest_of(&("corrupt-ok", ti, name == "intact"));
+                    l.all.insert(dg);
+                    l.nontrivial.insert(dg);
+                }
+            }
+        }
+        let mut g = counts.lock().unwrap();
+        g.0 += n_trunc;
+        g.1 += n_rej;
+        g.2 += n_acc;
+        drop(g);
+        ctx.merge(l);
+    });
+    let g = counts.lock().unwrap();
+    ctx.run.count("real_decoder_truncations_rejected", g.0);
+    ctx.run.count("real_decoder_corruptions_rejected", g.1);
+    ctx.run.count("real_decoder_corruptions_accepted_incl_intact", g.2);
+}
+
+/// glyph keyed patches whose table list is not strictly ascending must be rejected as a whole
+fn space_unsorted(ctx: &Ctx) {
+    let mut l = Local::default();
+    let mut n = 0;
+    for spec in base_specs() {
+        let base_tabs = tables_for(spec.kind)[0].clone();
+        let first = base_tabs[0];
+        let lists: Vec<Vec<TagB>> = vec![
+            vec![first, first],
+            vec![ZZZZ, first],
+            vec![first, *b"AAAA"],
+            vec![GVAR, GLYF],
+            vec![first, ZZZZ, ZZZZ],
+        ];
+        for tl in lists {
+            for mapping in [Mapping::F2, Mapping::Split] {
+                let bad = GkPatch {
+                    compat: compat_of(mapping, 1),
+                    wide: false,
+                    gids: vec![2],
+                    data: tl.iter().map(|t| vec![world_data(0, t, 2)]).collect(),
+                    tables: tl.clone(),
+                };
+                let sc = Scenario {
+                    base: spec.clone(),
+                    mapping,
+                    patches: vec![gk_patch(0, &[0, 2], &base_tabs, false, compat_of(mapping, 0)), bad],
+                    note: "unsorted-tables".into(),
+                    real_brotli: false,
+                };
+                explore_scenario(ctx, &sc, &mut l);
+                n += 1;
+            }
+        }
+    }
+    ctx.run.count("unsorted_table_list_scenarios", n);
+    ctx.merge(l);
+}
+
+/// thorough: four patches (24 id permutations x 75 ordered partitions, faults at every call)
+fn space_four(ctx: &Ctx) {
+    let sets: Vec<Vec<u32>> = vec![vec![0], vec![1, 2], vec![2, 5], vec![0, 1, 2], vec![3, 4, 5], vec![1, 3, 5]];
+    let mut scenarios = vec![];
+    for spec in base_specs() {
+        let tables = &tables_for(spec.kind)[0];
+        for mapping in [Mapping::F2, Mapping::Split, Mapping::F1] {
+            for a in 0..sets.len() {
+                for b in a + 1..sets.len() {
+                    for c in b + 1..sets.len() {
+                        for d in c + 1..sets.len() {
+                            scenarios.push(Scenario {
+                                base: spec.clone(),
+                                mapping,
+                                patches: vec![
+                                    gk_patch(0, &sets[a], tables, false, compat_of(mapping, 0)),
+                                    gk_patch(0, &sets[b], tables, true, compat_of(mapping, 1)),
+                                    gk_patch(0, &sets[c], tables, false, compat_of(mapping, 2)),
+                                    gk_patch(0, &sets[d], tables, false, compat_of(mapping, 3)),
+                                ],
+                                note: "four".into(),
+                                real_brotli: false,
+                            });
+                        }
+                    }
+                }
+            }
+        }
+    }
+    ctx.run.count("gk_scenarios_four_patches", scenarios.len() as u64);
+    ctx.run.bound("orders_per_quadruple", json!({"id_permutations": 24, "ordered_partitions": ordered_partitions(4).len()}));
+    let scenarios = &scenarios;
+    par_for(scenarios.len(), |i| {
+        let mut l = Local::default();
+        explore_scenario(ctx, &scenarios[i], &mut l);
         ctx.merge(l);
     });
 }
